@@ -146,19 +146,29 @@ theorem LockInv.step {s : State} (h : LockInv s) (st : Step) (hv : valid s st = 
       simp only [Tbox.C05.step] at hi
       simp [this] at hi
   | join w => exact h.of_eq rfl rfl rfl rfl rfl rfl
+  | notifyOne ow =>
+    cases ow with
+    | none => exact h.of_eq rfl rfl rfl rfl rfl rfl
+    | some w =>
+      refine LockInv.setPc_free ?_ w (by simp) (by simp)
+      exact h.of_eq rfl rfl rfl rfl rfl rfl
+  | threadEnd w => exact h.setPc_free w (by simp) (by simp)
   | cleanupRet => exact h.of_eq rfl rfl rfl rfl rfl rfl
   | loopRun =>
     simp only [Tbox.C05.step]
     split
     · exact h
     · exact h.of_eq rfl rfl rfl rfl rfl rfl
-    · exact h.of_eq rfl rfl rfl rfl rfl rfl
+    · split <;> exact h.of_eq rfl rfl rfl rfl rfl rfl
     · exact h.of_eq rfl rfl rfl rfl rfl rfl
   | enter w =>
     simp only [valid, Bool.and_eq_true, Bool.not_eq_true', decide_eq_true_eq] at hv
     simp only [Tbox.C05.step]
     split
-    · exact h.setPc_free w (by simp) (by simp)
+    · split
+      · refine LockInv.setPc_free ?_ w (by simp) (by simp)
+        exact h.of_eq rfl rfl rfl rfl rfl rfl
+      · exact h.setPc_free w (by simp) (by simp)
     · exact (h.of_eq (s' := { s with idle := s.idle + 1 }) rfl rfl rfl rfl rfl rfl).afterPred w hv.1.2
   | block w =>
     simp only [valid, Bool.and_eq_true, decide_eq_true_eq, beq_iff_eq] at hv
@@ -227,9 +237,12 @@ theorem LockInv.step {s : State} (h : LockInv s) (st : Step) (hv : valid s st = 
     · refine LockInv.setPc_free ?_ w (by simp) (by simp)
       exact h.of_eq rfl rfl rfl rfl rfl rfl
     · split
-      · exact h.setPc_free w (by simp) (by simp)
       · refine LockInv.setPc_free ?_ w (by simp) (by simp)
         exact h.of_eq rfl rfl rfl rfl rfl rfl
+      · split
+        · exact h.setPc_free w (by simp) (by simp)
+        · refine LockInv.setPc_free ?_ w (by simp) (by simp)
+          exact h.of_eq rfl rfl rfl rfl rfl rfl
 
 theorem LockInv.init (c : Cfg) (hc : c.fixB = true) : LockInv (init c) := by
   constructor
